@@ -98,6 +98,8 @@ impl Module {
             s += &abi_rust(&t.abi, "    ", ti);
             s += &attrs_rust(&t.attrs, "    ");
             match t.kind {
+                // an opaque type may be written as a struct or as an enum
+                Kind::Opaque if ti % 2 == 1 => s += &format!("    #[diplomat::opaque]\n    pub enum {} {{ Xa, Xb }}\n", t.name),
                 Kind::Opaque => s += &format!("    #[diplomat::opaque]\n    pub struct {};\n", t.name),
                 Kind::Struct => s += &format!("    pub struct {} {{ pub a: u8 }}\n", t.name),
                 Kind::Enum => s += &format!("    pub enum {} {{ Va, Vb }}\n", t.name),
@@ -348,9 +350,45 @@ fn nm_oracle(mods: &[Module], rep: &mut Report) {
     }
 }
 
+/// A bridge module inside a bridge module: rustc expands each `#[diplomat::bridge]` on its own, so the symbols the
+/// inner module exports are named by the inner module's attributes alone; the tool reads the whole file.
+fn nested_module_probe(rep: &mut Report) {
+    let src = "#[diplomat::bridge]\n#[diplomat::abi_rename = \"outerlib_{0}\"]\npub mod outer {\n    #[diplomat::opaque]\n    pub struct Top;\n    impl Top { pub fn make() -> Box<Top> { Box::new(Top) } }\n    #[diplomat::bridge]\n    pub mod inner {\n        #[diplomat::opaque]\n        pub struct Inner;\n        impl Inner { pub fn make() -> Box<Inner> { Box::new(Inner) } pub fn get(&self) -> u8 { 0 } }\n        pub struct Pair { pub a: u8, pub b: u8 }\n        impl Pair { pub fn sum(self) -> u8 { self.a + self.b } }\n    }\n}\n";
+    let case = "(c06 probe nested-bridge-modules)";
+    rep.count("probe:nested-modules");
+    let ex = crate::expand::expand_each(&[src.to_string()]);
+    let exported: Vec<String> = match &ex[0] {
+        Ok(e) => e.extern_fns.iter().map(|f| f.name.clone()).collect(),
+        Err(e) => {
+            rep.notes.push(format!("nested-module probe: the macro expansion does not build ({})", e.chars().take(200).collect::<String>()));
+            return;
+        }
+    };
+    for t in SYM_TARGETS {
+        let o = tool::run_backend(src, t);
+        rep.oracle_runs += 1;
+        if !o.ok() {
+            rep.count(&format!("probe:nested-modules:{t}:{}", o.status().split(':').next().unwrap_or("?")));
+            continue;
+        }
+        let used = backend_symbols(t, &o.files);
+        for s in &used {
+            if !exported.contains(s) {
+                rep.oracle_fail(case, "backend refers to a symbol the proc macro does not export", json!({"backend": t, "symbol": s, "exported": exported, "source": src}));
+            }
+        }
+        for s in &exported {
+            if !used.contains(s) && !s.ends_with("_destroy") {
+                rep.oracle_fail(case, "an exported method is not used by the backend's bindings", json!({"backend": t, "symbol": s, "used": used, "source": src}));
+            }
+        }
+    }
+}
+
 pub fn main(args: &[String]) {
     let a = util::parse_args(args);
     let mut rep = Report::new("C06");
+    nested_module_probe(&mut rep);
     let thorough = a.tier == "thorough";
     let mut rng = Rng::new(a.seed);
     // rename patterns: model vs real RenameAttr (through a one-method module's abi name)
